@@ -1064,53 +1064,54 @@ class DcmMetaExtension(Nifti1Extension):
                 if classes[1] == 'slices':
                     other_slc_meta[classes] = other.get_class_dict(classes)
                     other._content[classes[0]][classes[1]] = {}
-        other_key_set = set(other.get_keys())
-        missing_keys = [key for key in self.get_keys()
-                        if key not in other_key_set]
-        for other_classes in other.get_valid_classes():
-            other_keys = list(other.get_class_dict(other_classes).keys())
+        try:
+            other_key_set = set(other.get_keys())
+            missing_keys = [key for key in self.get_keys()
+                            if key not in other_key_set]
+            for other_classes in other.get_valid_classes():
+                other_keys = list(other.get_class_dict(other_classes).keys())
 
-            #Treat missing keys as if they were in global const and have a value
-            #of None
-            if other_classes == ('global', 'const'):
-                other_keys += missing_keys
+                #Treat missing keys as if they were in global const and have a value
+                #of None
+                if other_classes == ('global', 'const'):
+                    other_keys += missing_keys
 
-            #When possible, reclassify our meta data so it matches the other
-            #classification
-            for key in other_keys:
-                local_classes = self.get_classification(key)
-                if local_classes != other_classes:
-                    local_allow = self._preserving_changes[local_classes]
-                    other_allow = self._preserving_changes[other_classes]
+                #When possible, reclassify our meta data so it matches the other
+                #classification
+                for key in other_keys:
+                    local_classes = self.get_classification(key)
+                    if local_classes != other_classes:
+                        local_allow = self._preserving_changes[local_classes]
+                        other_allow = self._preserving_changes[other_classes]
 
-                    if other_classes in local_allow:
-                        self._change_class(key, other_classes)
-                    elif not local_classes in other_allow:
-                        best_dest = None
-                        for dest_class in local_allow:
-                            if (dest_class[0] in self._content and
-                               dest_class in other_allow):
-                                best_dest = dest_class
-                                break
-                        self._change_class(key, best_dest)
+                        if other_classes in local_allow:
+                            self._change_class(key, other_classes)
+                        elif not local_classes in other_allow:
+                            best_dest = None
+                            for dest_class in local_allow:
+                                if (dest_class[0] in self._content and
+                                   dest_class in other_allow):
+                                    best_dest = dest_class
+                                    break
+                            self._change_class(key, best_dest)
 
-            #Insert new meta data and further reclassify as necessary
-            for key in other_keys:
-                if dim == self.slice_dim:
-                    self._insert_slice(key, other)
-                elif dim < 3:
-                    self._insert_non_slice(key, other)
-                elif dim == 3:
-                    self._insert_sample(key, other, 'time')
-                elif dim == 4:
-                    self._insert_sample(key, other, 'vector')
-
-        #Restore per slice meta if needed
-        if not use_slices:
-            for classes in other.get_valid_classes():
-                if classes[1] == 'slices':
-                    other._content[classes[0]][classes[1]] = \
-                        other_slc_meta[classes]
+                #Insert new meta data and further reclassify as necessary
+                for key in other_keys:
+                    if dim == self.slice_dim:
+                        self._insert_slice(key, other)
+                    elif dim < 3:
+                        self._insert_non_slice(key, other)
+                    elif dim == 3:
+                        self._insert_sample(key, other, 'time')
+                    elif dim == 4:
+                        self._insert_sample(key, other, 'vector')
+        finally:
+            #Restore per slice meta if needed
+            if not use_slices:
+                for classes in other.get_valid_classes():
+                    if classes[1] == 'slices':
+                        other._content[classes[0]][classes[1]] = \
+                            other_slc_meta[classes]
 
     def _insert_slice(self, key, other):
         local_vals, classes = self.get_values_and_class(key)
